@@ -80,16 +80,23 @@ class StandardGeometry(BaseGeometry):
         z1 = rays.z + t1 * rays.N
         z2 = rays.z + t2 * rays.N
 
-        # take intersection closest to z = 0 (i.e., vertex of geometry)
-        t = np.where(np.abs(z1) <= np.abs(z2), t1, t2)
-
-        # handle case when a = 0
-        t[a == 0] = -c[a == 0] / b[a == 0]
-
-        # the surface is the sheet of the conic through the vertex: rays that
-        # only meet the conic beyond its equator miss the surface
+        # the surface is the sheet of the conic through the vertex: roots
+        # beyond its equator (or on the other sheet of a hyperboloid) do not
+        # count
         with warnings.catch_warnings():
             warnings.simplefilter('ignore')
+            t1[(1 + self.k) * z1 / self.radius > 1] = np.inf
+            t2[(1 + self.k) * z2 / self.radius > 1] = np.inf
+            z1 = rays.z + t1 * rays.N
+            z2 = rays.z + t2 * rays.N
+
+            # take intersection closest to z = 0 (i.e., vertex of geometry)
+            t = np.where(np.abs(z1) <= np.abs(z2), t1, t2)
+
+        # handle case when a = 0
+        with warnings.catch_warnings():
+            warnings.simplefilter('ignore')
+            t[a == 0] = -c[a == 0] / b[a == 0]
             z = rays.z + t * rays.N
             t[(1 + self.k) * z / self.radius > 1] = np.nan
 
